@@ -112,10 +112,26 @@ def make_config(rng, fn=None, big=False, coefs=None, maxvars=6, one_shot_ok=Fals
         if tn == "dict":
             terms = {tuple(gen.sort_labels(k)): v for k, v in terms.items()}
     mapped = None
+    constrained = False
     if tn == "dict":
         m = dict(terms)
     else:
         m = gen.model_of(getattr(L, tn), terms)
+        if tn in ("PCBO", "PCSO") and labs and rng.random() < 0.4:
+            # a constrained model: the penalty terms (slack ancillas '__a*' included) are part of what is annealed
+            import warnings
+            P = {(x,): rng.choice([1, 2, -1]) for x in rng.sample(labs, min(len(labs), rng.randint(1, 3)))}
+            P[()] = rng.choice([-2, -1, 1])
+            with warnings.catch_warnings():
+                warnings.simplefilter("ignore")
+                try:
+                    getattr(m, "add_constraint_%s_zero" % rng.choice(["le", "lt", "ge", "eq", "ne"]))(P, lam=rng.choice([1, 2]))
+                    constrained = True
+                except KeyError:
+                    pass
+            if t_d2 and max((len(k) for k in m), default=0) > 2:
+                m = gen.model_of(getattr(L, tn), terms)          # (the penalty is not quadratic: not an input of the quadratic annealers)
+                constrained = False
         m.refresh()
         if not mat and rng.random() < 0.35:
             mapped = user_mapping(rng, m)
@@ -173,7 +189,8 @@ def make_config(rng, fn=None, big=False, coefs=None, maxvars=6, one_shot_ok=Fals
         kw["in_order"] = np.bool_(kw["in_order"])
         numpy_spelled = True
     return {"fn": fn, "type": tn, "model": m, "terms": dict(m), "kw": kw, "poly": p, "kind": kind,
-            "true_vars": tv, "full_keys": full, "own_matrix": own, "matrix": mat, "schedule_kind": sch, "user_mapping": mapped, "coef_kind": coef_kind, "numpy_spelled": numpy_spelled}
+            "true_vars": tv, "full_keys": full, "own_matrix": own, "matrix": mat, "schedule_kind": sch, "user_mapping": mapped, "coef_kind": coef_kind, "numpy_spelled": numpy_spelled,
+            "constrained": constrained}
 
 
 def describe(cfg):
@@ -253,7 +270,17 @@ def check_results_lenient(ctx, cfg, model, res, tag=""):
     if len(res) != max(na, 0):
         ctx.violation(tag + "wrong-number-of-results", "num_anneals=%r gave %d results" % (na, len(res)), w)
         return False
+    # A cancelled, un-refreshed variable: the spin kernels' own labelled types keep it in every state (the model still reports
+    # it and a complete initial_state has to name it); the cross-type and boolean front ends re-enumerate and drop it -- both
+    # readings of "the model's variables" occur on the unchanged tree, so the strict one is only demanded where it holds
+    strict = (fn, cfg["type"]) in (("anneal_puso", "PUSO"), ("anneal_puso", "PCSO"), ("anneal_puso", "QUSO"), ("anneal_quso", "QUSO"))
+    reported = set(model.variables) if strict else None
     for r in res:
+        if reported is not None and set(r.state) != reported:
+            # a labelled model's variables are the ones it reports (a cancelled, un-refreshed variable is still one of them)
+            ctx.violation(tag + "state-not-over-the-models-variables", "state over %r, model.variables %r" % (
+                sorted(map(repr, r.state)), sorted(map(repr, reported))), w)
+            return False
         if not tv <= set(r.state) or any(v not in dom for v in r.state.values()) or r.spin is not spin:
             ctx.violation(tag + "malformed-state", "state %r (spin=%r); variables in terms %r" % (r.state, r.spin, sorted(map(repr, tv))), w)
             return False
